@@ -109,6 +109,10 @@ class Report:
     def finish(self, coverage_extra=None):
         n, d = self.counts()
         refuted = [o for o in self.obligations if o["status"] == "refuted"]
+        if refuted and not self.violations and not self.known_hits:
+            # a refuted obligation must never pass silently
+            o = refuted[0]
+            self.violation(f"obligation:{o['name'][:100]}", f"obligation refuted: {o['name']} ({o.get('detail', '')[:200]})", {"obligation": o["name"], "detail": o.get("detail", ""), "backend": o.get("backend")}, failing_input_found=False)
         by_backend = {}
         secs = self.extra.get("bulk_seconds", 0.0)
         for o in self.obligations:
